@@ -1,7 +1,7 @@
 (* C02 — every selected line is delivered before the session closes, at any pace.
    Statements only.  Schedules are event lists over the LTS of Model/C02_Session.v; the consumer's
    pace is the environment's freedom to delay ReadLine / ReadMsg events arbitrarily. *)
-From DT Require Import Lib.Bytes Gen.Consts Model.C02_Session Proofs.C02_Session Proofs.C02_Live.
+From DT Require Import Lib.Bytes Gen.Consts Model.C02_Session Proofs.C02_Session Proofs.C02_Live Model.C01_Eof Proofs.C01_Eof.
 
 (* Full statement for a configuration: on every schedule, once the .syn has reached the
    client and all requested commands were received, every line of every file was delivered
@@ -71,3 +71,8 @@ Example C02_example :
             /\ has_syn (stream s) = true /\ recv s = 2 /\ delivered_all c s = true
             /\ before_syn (stream s) = [(1, 0); (0, 0); (0, 1)].
 Proof. vm_compute. eexists. repeat split; reflexivity. Qed.
+
+(* End of file (a slow consumer makes a read last longer than 3 s: the last, unterminated line of a file is still delivered): see Props/C01.v; the operator of the truncation test comes from the source. *)
+Theorem C02_eof_delivers_rest : forall (tick pick pending : bool) (offset size : Z), (offset <= size)%Z ->
+  at_eof false tick false pick pending (Some offset) (Some size) = EofStop pending.
+Proof. exact eof_delivers_rest. Qed.
